@@ -4,5 +4,9 @@ HERE = os.path.dirname(os.path.dirname(os.path.abspath(__file__)))
 out = []
 for f in sorted(glob.glob(os.path.join(HERE, 'findings', '*.json'))):
     out += json.load(open(f))
+for e in out:
+    if e.get('status') == 'fixed':
+        # the record line asked for by the interface; a fixed entry suppresses nothing
+        e['record'] = f"fixed: property={e['property']} {e.get('commit', '?')} {e['id']}: {e.get('description', '')[:200]}"
 json.dump(out, open(os.path.join(HERE, 'KNOWN_FINDINGS.json'), 'w'), indent=1)
 print(len(out), 'findings')
